@@ -9,9 +9,13 @@ CONSTANTS
   MaxNet = 2
   RestartMode = "restart"
   SendPolicy = "leaderFirst"
+  MaxSnap = 1
+  SnapLabel = "exact"
 SYMMETRY Sym
 CONSTRAINT NetBound
 INVARIANT NoBad
 INVARIANT ElectionSafety
 INVARIANT TermNotBelowDurable
+INVARIANT SnapshotExact
+INVARIANT SmIsPrefix
 CHECK_DEADLOCK FALSE
